@@ -115,38 +115,24 @@ def matchAt (l t : Bits) (p : Nat) : Bool := (l.drop p).take t.length == t
 
 /-! ## bitstore.py: the index arithmetic -/
 
-/-- `indices(s, length)` (bitstore.py:10): `slice.indices`, with `stop = None` instead of a negative stop for a
-    negative step.  `step == 0`: `s.step > 0` is false and `assert s.step < 0` fails (AssertionError). -/
-def indices (k : Key) (n : Nat) : Except Err (Int × Option Int × Int) :=
-  match k.step with
-  | none => let r := Py.sliceIndices k.start k.stop 1 n; .ok (r.1, some r.2.1, 1)
-  | some st =>
-    if st > 0 then
-      let r := Py.sliceIndices k.start k.stop st n; .ok (r.1, some r.2.1, st)
-    else if st = 0 then .error (.internal "AssertionError")
-    else
-      let r := Py.sliceIndices k.start k.stop st n
-      .ok (r.1, if r.2.1 < 0 then none else some r.2.1, st)
-
-/-- `offset_slice_indices_lsb0(key, length)` (bitstore.py:21), line by line; `//` is floor division. -/
+/-- `offset_slice_indices_lsb0(key, length)` (bitstore.py:21-35), line by line: the slice that visits, in stored
+    order, the mirror images of the positions `key` visits.  `key.indices` raises ValueError for a zero step. -/
 def offsetSliceLsb0 (k : Key) (n : Nat) : Except Err Key :=
-  match indices k n with
-  | .error e => .error e
-  | .ok (start, stop, step) =>
-    if step < 0 then
-      match stop with
-      | none => .ok ⟨some (start + 1), none, k.step⟩
-      | some stop =>
-        let first := start
-        let last := start + (Int.fdiv (stop + 1 - start) step) * step
-        .ok ⟨some ((n : Int) - last), some ((n : Int) - first - 1), k.step⟩
+  let st := k.step.getD 1
+  if st = 0 then .error .value else
+  let r := Py.sliceIndices k.start k.stop st n               -- start, stop, step = key.indices(length)
+  let count := Py.rangeLen r.1 r.2.1 st                        -- count = len(range(start, stop, step))
+  if count = 0 then
+    -- an empty slice stays empty; for an assignment it marks the insertion point, the mirror image of start
+    if st > 0 then .ok ⟨some ((n : Int) - r.1), some ((n : Int) - r.1), k.step⟩
+    else .ok ⟨some 0, some 0, k.step⟩
+  else
+    let first := r.1
+    let last := r.1 + ((count : Int) - 1) * st
+    if st > 0 then .ok ⟨some ((n : Int) - last - 1), some ((n : Int) - first), k.step⟩
     else
-      match stop with
-      | none => .error (.internal "TypeError")          -- unreachable: a positive step always has a stop
-      | some stop =>
-        let first := start
-        let last := start + ((stop - 1 - start) / step) * step
-        .ok ⟨some ((n : Int) - last - 1), some ((n : Int) - first), k.step⟩
+      let newStop := (n : Int) - first - 2
+      .ok ⟨some ((n : Int) - last - 1), if newStop ≥ 0 then some newStop else none, k.step⟩
 
 /-! ## BitStore accessors and mutators, by mode (the attributes rebound by `set_lsb0`) -/
 
@@ -183,14 +169,13 @@ def setitemSlice (m : Mode) (l : Bits) (k : Key) (v : Bits) : Except Err Bits :=
     | .error e => .error e
     | .ok k' => pySet l k' v
 
-/-- `BitStore.__setitem__(slice, int)`: msb0 hands the int to bitarray; `setitem_lsb0` evaluates
-    `value._bitarray` on the int (AttributeError) after computing the new slice. -/
+/-- `BitStore.__setitem__(slice, 0|1)`: the int is handed to bitarray, which writes it to every visited position. -/
 def setitemSliceBit (m : Mode) (l : Bits) (k : Key) (b : Bool) : Except Err Bits :=
   match m with
   | .msb0 => pySetBit l k b
   | .lsb0 => match offsetSliceLsb0 k l.length with
     | .error e => .error e
-    | .ok _ => .error (.internal "AttributeError")
+    | .ok k' => pySetBit l k' b
 
 /-- `BitStore.__setitem__(int, 0|1)`. -/
 def setitemIdx (m : Mode) (l : Bits) (i : Int) (b : Bool) : Except Err Bits :=
@@ -413,39 +398,38 @@ def rfind_ (m : Mode) (l t : Bits) (a b : Nat) (ba : Bool) : Except Err (Option 
     | .error e => .error e
     | .ok (s, e) => .ok ((findStore l t s e ba).map fun p => l.length - p - t.length)
 
-/-- inner `while found:` loop of `_findall_lsb0`: pops from the end, counts BEFORE the alignment filter.
-    Returns the positions yielded, the new counter and whether the generator returned. -/
+/-- inner `while found:` loop of `_findall_lsb0` (bits.py:1366-1372): pops from the end; a position is counted
+    only when it passes the alignment filter.  Returns the positions yielded, the new counter and whether the
+    generator returned. -/
 def drainFound (n tl : Nat) (count : Option Nat) (ba : Bool) : List Nat → Nat → List Nat × Nat × Bool
   | [], c => ([], c, false)
   | p :: rest, c =>                                  -- `rest` is `found` reversed: `p = found.pop()`
-    if (match count with | none => false | some k => c ≥ k) then ([], c, true)
-    else
-      let q := n - p - tl
-      let r := drainFound n tl count ba rest (c + 1)
-      (if ¬ ba ∨ q % 8 = 0 then q :: r.1 else r.1, r.2.1, r.2.2)
+    let q := n - p - tl
+    if ¬ ba ∨ q % 8 = 0 then
+      if (match count with | none => false | some k => c ≥ k) then ([], c, true)
+      else
+        let r := drainFound n tl count ba rest (c + 1)
+        (q :: r.1, r.2.1, r.2.2)
+    else drainFound n tl count ba rest c
 
-/-- The `while True:` loop of `_findall_lsb0` (bits.py:1322-1342), `fuel` bounding the number of chunks. -/
-def findallLsb0Loop (inc : Nat) (l t : Bits) (s0 buf : Nat) (count : Option Nat) (ba : Bool) :
+/-- The `while True:` loop of `_findall_lsb0` (bits.py:1363-1375), `fuel` bounding the number of chunks: every
+    chunk `[pos, chunk_end)` ends `len(bs) - 1` bits after the start of the previous one, and the chunk at
+    `msb0_start` is always searched. -/
+def findallLsb0Loop (inc : Nat) (l t : Bits) (s0 : Nat) (count : Option Nat) (ba : Bool) :
     Nat → Nat → Nat → List Nat
   | 0, _, _ => []
-  | fuel + 1, pos, c =>
-    let found := findallMsb0 l t pos (pos + buf) none false
-    if found = [] then
-      if pos = s0 then [] else findallLsb0Loop inc l t s0 buf count ba fuel (max s0 (pos - inc)) c
-    else
-      let r := drainFound l.length t.length count ba found.reverse c
-      if r.2.2 then r.1 else
-      let pos' := max s0 (pos - inc)
-      if pos' = s0 then r.1 else r.1 ++ findallLsb0Loop inc l t s0 buf count ba fuel pos' r.2.1
+  | fuel + 1, hi, c =>
+    let pos := max s0 (hi - (inc + t.length))
+    let found := findallMsb0 l t pos hi none false
+    let r := drainFound l.length t.length count ba found.reverse c
+    if r.2.2 then r.1 else
+    if pos = s0 then r.1 else r.1 ++ findallLsb0Loop inc l t s0 count ba fuel (pos + t.length - 1) r.2.1
 
 /-- `_findall_lsb0` with the chunk increment as a parameter (the code: `max(8192, 80 * len(bs))`). -/
 def findallLsb0 (inc : Nat) (l t : Bits) (a b : Nat) (count : Option Nat) (ba : Bool) : Except Err (List Nat) :=
   match msb0Window l.length a b with
   | .error e => .error e
-  | .ok (s0, e0) =>
-    let buf := min (inc + t.length) (e0 - s0)
-    let pos := max s0 (e0 - buf)
-    .ok (findallLsb0Loop inc l t s0 buf count ba (l.length + 2) pos 0)
+  | .ok (s0, e0) => .ok (findallLsb0Loop inc l t s0 count ba (l.length + 2) e0 0)
 
 def chunkIncrement (t : Bits) : Nat := max 8192 (t.length * 80)
 
@@ -454,35 +438,6 @@ def findall_ (m : Mode) (l t : Bits) (a b : Nat) (count : Option Nat) (ba : Bool
   match m with
   | .msb0 => .ok (findallMsb0 l t a b count ba)
   | .lsb0 => findallLsb0 (chunkIncrement t) l t a b count ba
-
-/-- inner loop of the repaired scan: the alignment filter comes first, only yielded positions are counted. -/
-def drainFoundFixed (n tl : Nat) (count : Option Nat) (ba : Bool) : List Nat → Nat → List Nat × Nat × Bool
-  | [], c => ([], c, false)
-  | p :: rest, c =>
-    let q := n - p - tl
-    if ¬ ba ∨ q % 8 = 0 then
-      if (match count with | none => false | some k => c ≥ k) then ([], c, true)
-      else
-        let r := drainFoundFixed n tl count ba rest (c + 1)
-        (q :: r.1, r.2.1, r.2.2)
-    else drainFoundFixed n tl count ba rest c
-
-/-- The proposed repair of the chunk loop (notes/fix_C12_findall-chunks.diff): every window ends where the
-    previous one began plus `len(bs) - 1`, and the window at `msb0_start` is always searched. -/
-def findallLsb0FixedLoop (inc : Nat) (l t : Bits) (s0 : Nat) (count : Option Nat) (ba : Bool) :
-    Nat → Nat → Nat → List Nat
-  | 0, _, _ => []
-  | fuel + 1, hi, c =>
-    let pos := max s0 (hi - (inc + t.length))
-    let found := findallMsb0 l t pos hi none false
-    let r := drainFoundFixed l.length t.length count ba found.reverse c
-    if r.2.2 then r.1 else
-    if pos = s0 then r.1 else r.1 ++ findallLsb0FixedLoop inc l t s0 count ba fuel (pos + t.length - 1) r.2.1
-
-def findallLsb0Fixed (inc : Nat) (l t : Bits) (a b : Nat) (count : Option Nat) (ba : Bool) : Except Err (List Nat) :=
-  match msb0Window l.length a b with
-  | .error e => .error e
-  | .ok (s0, e0) => .ok (findallLsb0FixedLoop inc l t s0 count ba (l.length + 2) e0 0)
 
 def countNeg : Option Int → Bool
   | some c => decide (c < 0)
@@ -855,35 +810,11 @@ def setLsb0 (env : Attrs) (value : Bool) : Attrs :=
 
 def bindingToStr (b : Binding) : String := s!"{b.1}.{b.2.1}={b.2.2.1}.{b.2.2.2}"
 
-/-! ## regions in which the unchanged code deviates from the mirror law
-     (known findings; the same names are the keys of `REGIONS` in harness/props/C12.py) -/
-
-/-- a negative slice step (get / set / del) -/
-def negStep (k : Key) : Bool := match k.step with | some c => decide (c < 0) | none => false
-
-/-- a resizing (step-less or step-1) slice assignment whose clamped stop lies before its clamped start -/
-def invertedAssign (k : Key) (n : Nat) : Bool :=
-  (k.step = none ∨ k.step = some 1) ∧
-    (Py.sliceIndices k.start k.stop 1 n).2.1 < (Py.sliceIndices k.start k.stop 1 n).1
+/-! ## region in which the unchanged code deviates from the mirror law
+     (known finding; the same name is the key of `REGIONS` in harness/props/C12.py) -/
 
 /-- `find` / `rfind` with `bytealigned=True` -/
 def alignedFind (ba : Bool) : Bool := ba
-
-/-- `findall` with `bytealigned=True` and a `count` -/
-def countAligned {α} (count : Option α) (ba : Bool) : Bool := ba ∧ count.isSome
-
-/-- `set(value, range(...))` (and `x[a:b:c] = 0|1` with an extended step, which calls it) for a non-empty range
-    whose first and last element are valid non-negative indices: the range is written as one slice -/
-def setRange (P : PosSpec) (n : Nat) : Bool :=
-  match P with
-  | .range a b c =>
-    decide (c ≠ 0) && (match (Py.rangeList a b c).head?, (Py.rangeList a b c).getLast? with
-      | some first, some last => decide (0 ≤ first ∧ first < n ∧ 0 ≤ last ∧ last < n)
-      | _, _ => false)
-  | _ => false
-
-/-- `findall` (and `replace`, which is written with it) over a window longer than one chunk -/
-def multiChunk (inc tlen a b : Nat) : Bool := decide (b - a > inc + tlen)
 
 /-! ## driver -/
 
